@@ -125,6 +125,7 @@ func main() {
 		}
 		sort.Slice(pkgs, func(i, j int) bool { return pkgs[i].PkgPath < pkgs[j].PkgPath })
 		mods = append(mods, mod{label, dir, pkgs})
+		packages.Visit(pkgs, nil, func(p *packages.Package) { allPkgs[p.PkgPath] = p })
 		for _, p := range pkgs {
 			instrPkg[p.PkgPath] = true
 		}
@@ -908,45 +909,211 @@ func rewriteMapRange(label string, p *packages.Package, fc *fileCtx, x *ast.Rang
 
 var goInfo *types.Info
 
+// allPkgs: every package loaded, dependencies included (by import path).
+var allPkgs = map[string]*packages.Package{}
+var funcConcMemo = map[*types.Func]int{} // 0 unknown, 1 no, 2 yes, 3 in progress
+var funcDecls = map[string]map[*types.Func]*ast.FuncDecl{}
+
+func isStdlib(path string) bool {
+	first, _, _ := strings.Cut(path, "/")
+	return !strings.Contains(first, ".")
+}
+
+func declsOf(path string) map[*types.Func]*ast.FuncDecl {
+	if m, ok := funcDecls[path]; ok {
+		return m
+	}
+	m := map[*types.Func]*ast.FuncDecl{}
+	if p := allPkgs[path]; p != nil && p.TypesInfo != nil {
+		for _, f := range p.Syntax {
+			for _, d := range f.Decls {
+				if fd, ok := d.(*ast.FuncDecl); ok && fd.Body != nil {
+					if o, ok := p.TypesInfo.Defs[fd.Name].(*types.Func); ok {
+						m[o] = fd
+					}
+				}
+			}
+		}
+	}
+	funcDecls[path] = m
+	return m
+}
+
+// foreignConcurrent reports whether a function outside the library can start goroutines,
+// touch channels or wait for other goroutines (followed through the calls that resolve
+// statically). A call of such a function may run the library's callbacks on goroutines the
+// simulator does not start, or block for real (errgroup.Group.Go, singleflight.Group.Do,
+// semaphore.Weighted.Acquire, worker pools): a construct the simulator does not own.
+func foreignConcurrent(fn *types.Func) bool {
+	if fn == nil || fn.Pkg() == nil {
+		return false
+	}
+	fn = fn.Origin()
+	path := fn.Pkg().Path()
+	if instrPkg[path] || path == "verif.local/simrt" {
+		return false
+	}
+	if isStdlib(path) {
+		if path == "sync" && fn.Name() == "Wait" {
+			return true // WaitGroup.Wait / Cond.Wait reached inside a dependency: blocks for real
+		}
+		if path == "time" && (fn.Name() == "Sleep" || fn.Name() == "After" || fn.Name() == "NewTimer" || fn.Name() == "AfterFunc" || fn.Name() == "Tick" || fn.Name() == "NewTicker") {
+			return true
+		}
+		return false
+	}
+	switch funcConcMemo[fn] {
+	case 1, 3:
+		return false
+	case 2:
+		return true
+	}
+	funcConcMemo[fn] = 3
+	res := false
+	if fd := declsOf(path)[fn]; fd != nil {
+		info := allPkgs[path].TypesInfo
+		ast.Inspect(fd.Body, func(n ast.Node) bool {
+			if res {
+				return false
+			}
+			switch x := n.(type) {
+			case *ast.GoStmt, *ast.ChanType, *ast.SelectStmt, *ast.SendStmt:
+				res = true
+			case *ast.UnaryExpr:
+				if x.Op == token.ARROW {
+					res = true
+				}
+			case *ast.RangeStmt:
+				if t := info.TypeOf(x.X); t != nil {
+					if _, ok := t.Underlying().(*types.Chan); ok {
+						res = true
+					}
+				}
+			case *ast.CallExpr:
+				var callee *types.Func
+				switch f := x.Fun.(type) {
+				case *ast.Ident:
+					callee, _ = info.Uses[f].(*types.Func)
+				case *ast.SelectorExpr:
+					if s := info.Selections[f]; s != nil {
+						callee, _ = s.Obj().(*types.Func)
+					} else {
+						callee, _ = info.Uses[f.Sel].(*types.Func)
+					}
+				}
+				if callee != nil && foreignConcurrent(callee) {
+					res = true
+				}
+			}
+			return !res
+		})
+	}
+	funcConcMemo[fn] = 1
+	if res {
+		funcConcMemo[fn] = 2
+	}
+	return res
+}
+
 func rewriteGo(label string, fc *fileCtx, g *ast.GoStmt, fn string, isListed bool) {
 	id := newSite("go", fc, label, g.Pos(), fn, "")
 	call := g.Call
 	n := len(call.Args)
-	if call.Ellipsis.IsValid() || n > 8 {
-		fatal = append(fatal, fmt.Sprintf("%s:%d: go statement with a variadic spread or more than 8 arguments", fc.rel, fc.tf.Line(g.Pos())))
+	where := fmt.Sprintf("%s:%d", fc.rel, fc.tf.Line(g.Pos()))
+	// go F(a, b)  ->  { __f, __a0, __a1 := F, a, b; __simrt.Go(id, func() { __f(__a0, __a1) }) }
+	// The function value (a method value binds its receiver) and the arguments are evaluated at
+	// the statement, as the language requires. No type has to be named: the temporaries take
+	// the types of the expressions and are passed on under the ordinary assignability rules
+	// (a concrete value for an interface parameter, a slice for a variadic spread). Untyped
+	// constants and nil are not captured - they are repeated inside the closure, where they take
+	// the parameter's type as they did in the original call. Only text between the callee and
+	// the arguments is replaced, so edits inside them stay valid.
+	if n == 1 {
+		if tup, ok := goInfo.TypeOf(call.Args[0]).(*types.Tuple); ok && tup.Len() != 1 {
+			fatal = append(fatal, where+": go statement whose arguments are the results of a multi-value call")
+			return
+		}
+	}
+	funTxt := "__f"
+	hoistFun := true
+	switch f := call.Fun.(type) {
+	case *ast.Ident:
+		switch goInfo.Uses[f].(type) {
+		case *types.Func:
+			hoistFun, funTxt = false, fc.text(f) // a declared function (possibly generic: instantiated by the call)
+		case *types.Builtin, *types.TypeName:
+			fatal = append(fatal, where+": go statement calling a builtin or a conversion")
+			return
+		}
+	case *ast.SelectorExpr:
+		if x, ok := f.X.(*ast.Ident); ok {
+			if _, isPkg := goInfo.Uses[x].(*types.PkgName); isPkg {
+				if _, isFn := goInfo.Uses[f.Sel].(*types.Func); isFn {
+					hoistFun, funTxt = false, fc.text(f)
+				}
+			}
+		}
+	}
+	if n == 0 && hoistFun {
+		if sig, ok := goInfo.TypeOf(call.Fun).Underlying().(*types.Signature); ok && sig.Results().Len() == 0 {
+			// go F()  ->  __simrt.Go(id, F)
+			fc.replace(g.Go, call.Fun.Pos(), fmt.Sprintf("__simrt.Go(%d, ", id))
+			fc.replace(call.Lparen, call.Rparen+1, ")")
+			return
+		}
+	}
+	var lhs, inner []string
+	var consts []ast.Expr
+	if hoistFun {
+		lhs = append(lhs, "__f")
+	}
+	for i, a := range call.Args {
+		tv := goInfo.Types[a]
+		if tv.IsNil() || tv.Value != nil {
+			lhs = append(lhs, "_")
+			inner = append(inner, fc.text(a))
+			consts = append(consts, a)
+			continue
+		}
+		lhs = append(lhs, fmt.Sprintf("__a%d", i))
+		inner = append(inner, fmt.Sprintf("__a%d", i))
+	}
+	spread := ""
+	if call.Ellipsis.IsValid() {
+		spread = "..."
+	}
+	tail := fmt.Sprintf("__simrt.Go(%d, func() { %s(%s%s) }) }", id, funTxt, strings.Join(inner, ", "), spread)
+	allBlank := true
+	for _, l := range lhs {
+		if l != "_" {
+			allBlank = false
+		}
+	}
+	if allBlank {
+		// a declared function called with constants only (or nothing): nothing to evaluate at the statement
+		fc.replace(g.Go, call.Rparen+1, "{ "+tail)
 		return
 	}
-	// go F(a, b)  ->  __simrt.Go2(id, F, a, b)
-	// The function value (a method value binds its receiver) and the arguments are evaluated at
-	// the statement, as the language requires; untyped constants and nil take the parameter
-	// types through type inference. Only the `go` keyword and the opening parenthesis are
-	// replaced, so edits inside the callee or the arguments stay valid.
-	name := "Go"
-	if n > 0 {
-		name = fmt.Sprintf("Go%d", n)
+	for _, a := range consts {
+		fc.replace(a.Pos(), a.End(), "0") // placeholder assigned to the blank identifier
 	}
-	if sig, ok := goInfo.TypeOf(call.Fun).Underlying().(*types.Signature); ok {
-		if sig.Variadic() {
-			fatal = append(fatal, fmt.Sprintf("%s:%d: go statement calling a variadic function", fc.rel, fc.tf.Line(g.Pos())))
-			return
+	head := "{ " + strings.Join(lhs, ", ") + " := "
+	if hoistFun {
+		fc.replace(g.Go, call.Fun.Pos(), head)
+		if n > 0 {
+			fc.replace(call.Fun.End(), call.Args[0].Pos(), ", ")
+		} else {
+			fc.replace(call.Fun.End(), call.Rparen, "")
 		}
-		switch sig.Results().Len() {
-		case 0:
-		case 1:
-			name = fmt.Sprintf("GoR%d", n)
-		case 2:
-			name = fmt.Sprintf("GoRR%d", n)
-		default:
-			fatal = append(fatal, fmt.Sprintf("%s:%d: go statement calling a function with more than two results", fc.rel, fc.tf.Line(g.Pos())))
-			return
-		}
-	}
-	fc.replace(g.Go, call.Fun.Pos(), fmt.Sprintf("__simrt.%s(%d, ", name, id))
-	if n > 0 {
-		fc.replace(call.Lparen, call.Lparen+1, ", ")
 	} else {
-		fc.replace(call.Lparen, call.Rparen+1, ")")
+		// the callee is not evaluated at the statement: drop its text, keep the arguments
+		fc.replace(g.Go, call.Args[0].Pos(), head)
 	}
+	closeFrom := call.Rparen
+	if n > 0 {
+		closeFrom = call.Args[n-1].End() // also swallows a trailing comma and the spread dots
+	}
+	fc.replace(closeFrom, call.Rparen+1, "; "+tail)
 }
 
 // isSyncMarkCall reports whether a call is one of the synchronisation operations that are
@@ -1033,6 +1200,9 @@ func handleCall(label string, p *packages.Package, fc *fileCtx, c *ast.CallExpr,
 		if pn, ok := info.Uses[id].(*types.PkgName); ok {
 			path := pn.Imported().Path()
 			name := sel.Sel.Name
+			if fo, _ := info.Uses[sel.Sel].(*types.Func); !isStdlib(path) && foreignConcurrent(fo) {
+				audit(&inv.Unsim, "call into "+path+"."+name+" (a dependency that starts goroutines or uses channels)")
+			}
 			switch {
 			case path == "sync" && (name == "OnceFunc" || name == "OnceValue" || name == "OnceValues"):
 				sid := newSite("sync", fc, label, c.Pos(), fn, "sync."+name)
@@ -1070,6 +1240,9 @@ func handleCall(label string, p *packages.Package, fc *fileCtx, c *ast.CallExpr,
 	rs = strings.TrimPrefix(rs, "*")
 	name := m.Name()
 	pkg := m.Pkg().Path()
+	if !isStdlib(pkg) && foreignConcurrent(m) {
+		audit(&inv.Unsim, "call into "+pkg+"."+rs+"."+name+" (a dependency that starts goroutines or uses channels)")
+	}
 	shim := ""
 	isLocker := false
 	switch pkg {
